@@ -153,11 +153,16 @@ def run_C08(ctx, R):
     pure.rule_mapper(ctx, R)
     lazy.rule_dec(ctx, R)
     lazy.rule_lazy_adapt(ctx, R)
-    search.rule_iter_standard(ctx, R, rules={"LAZY-END", "ITER-LABEL"})
+    # CW-SIB: every iterator template holds on both siblings (same rules, instantiated bw + cw)
+    search.rule_iter_standard(ctx, R)
     nfa.rule_num_bytes(ctx, R, E.NR)
     da.rule_dispatch(ctx, R, E.NR, E.BR, rules={"CW-NB"})
-    search.rule_iter_leftmost(ctx, R, rules={"SAFE-STR"})
+    search.rule_iter_leftmost(ctx, R)
     search.rule_trans(ctx, R)
+    acc.rule_accessors(ctx, R)
+    lazy.rule_lazy_ctor(ctx, R, rules={"LAZY-CTOR"})
+    da.rule_placement(ctx, R, E.NR, E.BR, rules={"DA-EDGE", "DA-BASE", "B-BASE", "B-FAIL", "B-OPOS"})
+    da.rule_array_growth(ctx, R, E.NR, E.BR)
 
 
 def run_C09(ctx, R):
